@@ -55,10 +55,13 @@ def find_function(key):
     classname = None
     node = None
     for idx, p in enumerate(parts):
+        want_class = p.endswith('@class')      # disambiguate a class later shadowed by a function of the same name
+        p = p[:-6] if want_class else p
         found = None
         # last definition wins, as at import time
         for n in scope:
-            if isinstance(n, (ast.FunctionDef, ast.ClassDef)) and n.name == p:
+            if isinstance(n, (ast.FunctionDef, ast.ClassDef)) and n.name == p and \
+                    (not want_class or isinstance(n, ast.ClassDef)):
                 found = n
             elif isinstance(n, (ast.If, ast.Try)):
                 for sub in ast.walk(n):
